@@ -111,6 +111,16 @@ CHECKS = {
         note="Trusted: HmsValue, the worker's projection. The interpreter's library has no Clone (copy laws on the "
              "VM's library only).",
         design="5/C13"),
+    "C18": dict(
+        technique="analyzer member table extracted and compared with both runtimes; TLA+ spec of member semantics "
+                  "(HmsMembers) enumerated by TLC over boundary receivers / indices and replayed on both runtimes",
+        text="The finite cross product (type kind x offered member) is checked for existence in both runtimes and "
+             "every member is called with boundary arguments (no panic, result conforms to the advertised type). "
+             "HmsMembers specifies list / option / range / int / string members and indexing with indices "
+             "-n-1..n+1 (negative = from the end, out of range = interrupt); TLC enumerates 420 cases with specified "
+             "result and receiver-afterwards, both runtimes must reproduce them.",
+        note="Type-only (no value oracle) for compare_lev, parse_float, to_json_indent, to_lower/upper, replace, join.",
+        design="5/C18"),
 }
 
 NOT_YET = {}
